@@ -218,7 +218,7 @@ theorem lock_table_covers_operations :
 
 /-! ## non-vacuity -/
 
-def rA : InRec := { key := 1, flowType := 1, corr := [.str [1], .str [], .str [], .str [2], .str [], .str [], .ip4 [0,0,0,0], .num 0, .num 0, .num 0, .num 0],
+def rA : InRec := { key := 1, flowType := 1, corr := [.str [1], .str [], .str [], .str [2], .str [], .str [], .ip4 [0,0,0,0], .num 0, .num 0, .num 0, .num 0, .ip6 zero16],
                     start := 100, end_ := 101, endReason := 2, tcpState := [], stats := [1, 1, 1, 1, 1, 1, 1, 1] }
 def rB : InRec := { rA with key := 2 }
 def s0 : State := { activeT := 100, inactiveT := 250 }
